@@ -554,6 +554,28 @@ theorem jwsHasher_spec (p : Pub) :
     (∀ x y, p = .ec .p224 x y → jwsHasher p = none ∧ ∀ k n u pl sg, jwsEncode p k n u pl sg = .err) := by
   refine ⟨?_, ?_, ?_, ?_, ?_⟩ <;> intros <;> subst_vars <;> simp [jwsHasher, jwsEncode]
 
+/-- **which requests carry the JWK.** Of all signing methods only the two account lookups by key
+    (`Register`, `GetReg`) and requests signed with a key handed in by the caller (`RevokeCert` with the
+    certificate key) are sent in JWK form; every other request names the account by its key ID — given
+    that one is known. -/
+theorem api_key_form (acct signer : Pub) (explicitKey : Bool) (kid nonce url regURL : Bytes) (r : ApiReq)
+    (sg : SigScript) (alg hj payload digest sig : Bytes) (hk : kid.isEmpty = false)
+    (h : apiEncode acct signer explicitKey kid nonce url regURL r sg = .ok alg hj payload digest sig) :
+    ∃ ms, hj = jsonObj ms ∧ hasMember ms "jwk" = (explicitKey || apiJWKForm r) ∧
+      hasMember ms "kid" = !(explicitKey || apiJWKForm r) ∧ (asc "url", JVal.str url) ∈ ms := by
+  unfold apiEncode at h
+  cases hp : apiPayload acct regURL r with
+  | none => simp [hp] at h
+  | some pl =>
+    simp only [hp] at h
+    obtain ⟨_, _, e2, _, _⟩ := jwsEncode_ok _ _ _ _ _ _ _ _ _ _ _ h
+    refine ⟨_, e2, ?_, ?_, ?_⟩
+    · have := (jwk_xor_kid alg signer (if (explicitKey || apiJWKForm r) = true then [] else kid) nonce url).1
+      rw [this]; cases hb : (explicitKey || apiJWKForm r) <;> simp [hb, hk]
+    · have := (jwk_xor_kid alg signer (if (explicitKey || apiJWKForm r) = true then [] else kid) nonce url).2.1
+      rw [this]; cases hb : (explicitKey || apiJWKForm r) <;> simp [hb, hk]
+    · exact (header_values alg signer _ nonce url).2.2.2.1
+
 /-! ## non-vacuity -/
 
 example : ∃ sig, rsFixed (sigSize .p256) 1 2 = some sig ∧ sig.length = 64 := by
